@@ -664,6 +664,176 @@ theorem mem_allPairs {n i j : Nat} (hij : i < j) (hj : j < n) : (i, j) ∈ allPa
   rw [List.mem_map]
   exact ⟨j, List.mem_filter.mpr ⟨List.mem_range.mpr hj, by simpa using hij⟩, rfl⟩
 
+/-! ### all-pairs cover for EVERY rank (no `2 ≤ r`)
+
+`addPair_facts` carries `2 ≤ r` only for its size clause (the fall-through lattice `{i, j}` has two
+features).  The cover clause needs no rank hypothesis, and the size clause holds for every rank with the
+bound `max r 2` (any `m` with `r ≤ m`, `2 ≤ m`).  For `r ≤ 1` no lattice ever has room, so every pair
+gets its own two-feature lattice. -/
+
+theorem addToHaving_size (r m i j : Nat) (hrm : r ≤ m) : ∀ (lats out : List (List Nat)),
+    addToHaving r i j lats = some out → SizeOk m lats → SizeOk m out
+  | [], _, h, _ => by simp [addToHaving] at h
+  | lat :: rest, out, h, hs => by
+    unfold addToHaving at h
+    split_ifs at h with h1 h2
+    · simp only [Option.some.injEq] at h
+      subst h
+      intro l hl
+      rcases List.mem_cons.mp hl with rfl | hl
+      · have := length_addIfAbsent lat j; omega
+      · exact hs l (List.mem_cons_of_mem _ hl)
+    · simp only [Option.some.injEq] at h
+      subst h
+      intro l hl
+      rcases List.mem_cons.mp hl with rfl | hl
+      · have := length_addIfAbsent lat i; omega
+      · exact hs l (List.mem_cons_of_mem _ hl)
+    · cases hrec : addToHaving r i j rest with
+      | none => simp [hrec] at h
+      | some out' =>
+        simp only [hrec, Option.map_some, Option.some.injEq] at h
+        subst h
+        intro l hl
+        rcases List.mem_cons.mp hl with rfl | hl
+        · exact hs _ List.mem_cons_self
+        · exact addToHaving_size r m i j hrm rest out' hrec
+            (fun l' hl' => hs l' (List.mem_cons_of_mem _ hl')) l hl
+
+theorem addToRoomy_size (r m i j : Nat) (hrm : r ≤ m) : ∀ (lats out : List (List Nat)),
+    addToRoomy r i j lats = some out → SizeOk m lats → SizeOk m out
+  | [], _, h, _ => by simp [addToRoomy] at h
+  | lat :: rest, out, h, hs => by
+    unfold addToRoomy at h
+    split_ifs at h with h1
+    · simp only [Option.some.injEq] at h
+      subst h
+      intro l hl
+      rcases List.mem_cons.mp hl with rfl | hl
+      · have := length_addIfAbsent (addIfAbsent lat i) j
+        have := length_addIfAbsent lat i
+        omega
+      · exact hs l (List.mem_cons_of_mem _ hl)
+    · cases hrec : addToRoomy r i j rest with
+      | none => simp [hrec] at h
+      | some out' =>
+        simp only [hrec, Option.map_some, Option.some.injEq] at h
+        subst h
+        intro l hl
+        rcases List.mem_cons.mp hl with rfl | hl
+        · exact hs _ List.mem_cons_self
+        · exact addToRoomy_size r m i j hrm rest out' hrec
+            (fun l' hl' => hs l' (List.mem_cons_of_mem _ hl')) l hl
+
+/-- `addPair_facts` for every rank: growth and cover unconditionally, sizes bounded by any `m ≥ max r 2`. -/
+theorem addPair_facts_any (r m : Nat) (hrm : r ≤ m) (h2m : 2 ≤ m) (lats : List (List Nat)) (p : Nat × Nat) :
+    Grows lats (addPair r lats p) ∧ Covered (addPair r lats p) p.1 p.2 ∧
+    (SizeOk m lats → SizeOk m (addPair r lats p)) := by
+  unfold addPair
+  split_ifs with h
+  · refine ⟨Grows.refl _, ?_, id⟩
+    rw [List.any_eq_true] at h
+    obtain ⟨l, hl, h⟩ := h
+    simp only [Bool.and_eq_true, List.contains_iff_mem] at h
+    exact ⟨l, hl, h⟩
+  · cases h1 : addToHaving r p.1 p.2 lats with
+    | some out =>
+      exact ⟨(addToHaving_some r _ _ lats out h1).1, (addToHaving_some r _ _ lats out h1).2.1,
+        addToHaving_size r m _ _ hrm lats out h1⟩
+    | none =>
+      cases h2 : addToRoomy r p.1 p.2 lats with
+      | some out =>
+        exact ⟨(addToRoomy_some r _ _ lats out h2).1, (addToRoomy_some r _ _ lats out h2).2.1,
+          addToRoomy_size r m _ _ hrm lats out h2⟩
+      | none =>
+        simp only
+        refine ⟨fun l hl => ⟨l, List.mem_append_left _ hl, List.Subset.refl l⟩, ?_, ?_⟩
+        · refine ⟨_, List.mem_append_right _ (List.mem_singleton_self _), ?_, mem_addIfAbsent _ _⟩
+          exact subset_addIfAbsent _ _ (List.mem_singleton_self _)
+        · intro hs l hl
+          rcases List.mem_append.mp hl with hl | hl
+          · exact hs l hl
+          · rw [List.mem_singleton] at hl
+            subst hl
+            have := length_addIfAbsent [p.1] p.2
+            simp only [List.length_singleton] at this
+            omega
+
+theorem foldl_addPair_facts_any (r m : Nat) (hrm : r ≤ m) (h2m : 2 ≤ m) :
+    ∀ (ps : List (Nat × Nat)) (lats : List (List Nat)),
+    Grows lats (ps.foldl (addPair r) lats) ∧ (∀ p ∈ ps, Covered (ps.foldl (addPair r) lats) p.1 p.2) ∧
+    (SizeOk m lats → SizeOk m (ps.foldl (addPair r) lats))
+  | [], lats => ⟨Grows.refl _, fun _ h => (by cases h), id⟩
+  | p :: ps, lats => by
+    obtain ⟨g1, c1, s1⟩ := addPair_facts_any r m hrm h2m lats p
+    obtain ⟨g2, c2, s2⟩ := foldl_addPair_facts_any r m hrm h2m ps (addPair r lats p)
+    rw [List.foldl_cons]
+    refine ⟨g1.trans g2, ?_, fun h => s2 (s1 h)⟩
+    intro q hq
+    rcases List.mem_cons.mp hq with rfl | hq
+    · exact Covered.mono g2 c1
+    · exact c2 q hq
+
+theorem lt_of_mem_allPairs {n : Nat} {p : Nat × Nat} (h : p ∈ allPairs n) : p.1 < p.2 ∧ p.2 < n := by
+  unfold allPairs at h
+  rw [List.mem_flatMap] at h
+  obtain ⟨i, _, h⟩ := h
+  rw [List.mem_map] at h
+  obtain ⟨j, hj, rfl⟩ := h
+  rw [List.mem_filter] at hj
+  exact ⟨by simpa using hj.2, List.mem_range.mp hj.1⟩
+
+theorem mem_of_mem_applyPerm {α} {perm : List Nat} {l : List α} {x : α} (h : x ∈ applyPerm perm l) : x ∈ l := by
+  unfold applyPerm at h
+  rw [List.mem_filterMap] at h
+  obtain ⟨i, _, hi⟩ := h
+  exact List.mem_of_getElem? hi
+
+theorem addToHaving_none_of_full (r i j : Nat) : ∀ (lats : List (List Nat)), (∀ l ∈ lats, r ≤ l.length) →
+    addToHaving r i j lats = none
+  | [], _ => rfl
+  | lat :: rest, h => by
+    have h0 := h lat List.mem_cons_self
+    unfold addToHaving
+    rw [if_neg (by omega), if_neg (by omega),
+      addToHaving_none_of_full r i j rest (fun l hl => h l (List.mem_cons_of_mem _ hl))]
+    rfl
+
+theorem addToRoomy_none_of_full (r i j : Nat) : ∀ (lats : List (List Nat)), (∀ l ∈ lats, r ≤ l.length + 1) →
+    addToRoomy r i j lats = none
+  | [], _ => rfl
+  | lat :: rest, h => by
+    have h0 := h lat List.mem_cons_self
+    unfold addToRoomy
+    rw [if_neg (by omega), addToRoomy_none_of_full r i j rest (fun l hl => h l (List.mem_cons_of_mem _ hl))]
+    rfl
+
+/-- rank ≤ 1: a pair of two different features either is already together in a lattice or gets a NEW
+two-feature lattice; lattices of two features stay lattices of two features. -/
+theorem addPair_rank_le_one (r : Nat) (hr : r ≤ 1) (lats : List (List Nat)) (p : Nat × Nat) (hp : p.1 ≠ p.2)
+    (h2 : ∀ l ∈ lats, l.length = 2) : ∀ l ∈ addPair r lats p, l.length = 2 := by
+  unfold addPair
+  split_ifs with h
+  · exact h2
+  · rw [addToHaving_none_of_full r _ _ lats (fun l hl => by rw [h2 l hl]; omega),
+      addToRoomy_none_of_full r _ _ lats (fun l hl => by rw [h2 l hl]; omega)]
+    intro l hl
+    rcases List.mem_append.mp hl with hl | hl
+    · exact h2 l hl
+    · rw [List.mem_singleton] at hl
+      subst hl
+      unfold addIfAbsent
+      rw [if_neg (by simpa using Ne.symm hp)]
+      rfl
+
+theorem foldl_addPair_rank_le_one (r : Nat) (hr : r ≤ 1) : ∀ (ps : List (Nat × Nat)) (lats : List (List Nat)),
+    (∀ p ∈ ps, p.1 ≠ p.2) → (∀ l ∈ lats, l.length = 2) → ∀ l ∈ ps.foldl (addPair r) lats, l.length = 2
+  | [], _, _, h2 => h2
+  | p :: ps, lats, hp, h2 => by
+    rw [List.foldl_cons]
+    exact foldl_addPair_rank_le_one r hr ps _ (fun q hq => hp q (List.mem_cons_of_mem _ hq))
+      (addPair_rank_le_one r hr lats p (hp p List.mem_cons_self) h2)
+
 
 /-! ### Crystals: use allocation -/
 
